@@ -77,52 +77,52 @@ package raft
 
 // ---- primitives ---------------------------------------------------------------------
 
-//@ func writeUint64
+//@ func writeUint64 params(w, v)
 //@   requires w != nil
 //@   modifies wdata, wlen
 //@   ensures [C18.u64-enc] result0 == nil ==> Wrote(w, 8) && gword(wdata[ref(w)], old(wlen[ref(w)])) == v
 //@   ensures [C18.enc-frame] WroteSome(w)
 
-//@ func readUint64
+//@ func readUint64 params(r)
 //@   requires r != nil
 //@   modifies rpos
 //@   ensures [C18.u64-dec] result1 == nil ==> Consumed(r, 8) && result0 == gword(rdata[ref(r)], old(rpos[ref(r)]))
 //@   ensures [C18.truncated-is-error] (result1 == nil) == (8 <= old(Avail(r)))
 //@   ensures [C18.dec-frame] ConsumedSome(r)
 
-//@ func writeUint32
+//@ func writeUint32 params(w, v)
 //@   requires w != nil
 //@   modifies wdata, wlen
 //@   ensures [C18.u32-enc] result0 == nil ==> Wrote(w, 4) && gword32(wdata[ref(w)], old(wlen[ref(w)])) == v
 //@   ensures [C18.enc-frame] WroteSome(w)
 
-//@ func readUint32
+//@ func readUint32 params(r)
 //@   requires r != nil
 //@   modifies rpos
 //@   ensures [C18.u32-dec] result1 == nil ==> Consumed(r, 4) && result0 == gword32(rdata[ref(r)], old(rpos[ref(r)]))
 //@   ensures [C18.truncated-is-error] (result1 == nil) == (4 <= old(Avail(r)))
 //@   ensures [C18.dec-frame] ConsumedSome(r)
 
-//@ func writeUint8
+//@ func writeUint8 params(w, v)
 //@   requires w != nil
 //@   modifies wdata, wlen
 //@   ensures [C18.u8-enc] result0 == nil ==> Wrote(w, 1) && wdata[ref(w)][old(wlen[ref(w)])] == v
 //@   ensures [C18.enc-frame] WroteSome(w)
 
-//@ func readUint8
+//@ func readUint8 params(r)
 //@   requires r != nil
 //@   modifies rpos
 //@   ensures [C18.u8-dec] result1 == nil ==> Consumed(r, 1) && result0 == rdata[ref(r)][old(rpos[ref(r)])]
 //@   ensures [C18.truncated-is-error] (result1 == nil) == (1 <= old(Avail(r)))
 //@   ensures [C18.dec-frame] ConsumedSome(r)
 
-//@ func writeBool
+//@ func writeBool params(w, v)
 //@   requires w != nil
 //@   modifies wdata, wlen
 //@   ensures [C18.bool-enc] result0 == nil ==> Wrote(w, 1) && (wdata[ref(w)][old(wlen[ref(w)])] > 0) == v && wdata[ref(w)][old(wlen[ref(w)])] <= 1
 //@   ensures [C18.enc-frame] WroteSome(w)
 
-//@ func readBool
+//@ func readBool params(r)
 //@   requires r != nil
 //@   modifies rpos
 //@   ensures [C18.bool-dec] result1 == nil ==> Consumed(r, 1) && result0 == (rdata[ref(r)][old(rpos[ref(r)])] > 0)
@@ -133,13 +133,13 @@ package raft
 
 //@ pure EncReq(d int, p int, term uint64, src uint64) bool = gword(d, p) == term && gword(d, p+8) == src
 
-//@ func (*req).encode
+//@ func (*req).encode params(req, w)
 //@   requires w != nil
 //@   modifies wdata, wlen
 //@   ensures [C18.req-enc] result0 == nil ==> Wrote(w, 16) && EncReq(wdata[ref(w)], old(wlen[ref(w)]), req.term, req.src)
 //@   ensures [C18.enc-frame] WroteSome(w)
 
-//@ func (*req).decode
+//@ func (*req).decode params(req, r)
 //@   requires r != nil
 //@   modifies rpos, req.term, req.src
 //@   ensures [C18.req-dec] result0 == nil ==> Consumed(r, 16) && EncReq(rdata[ref(r)], old(rpos[ref(r)]), req.term, req.src)
@@ -148,13 +148,13 @@ package raft
 
 //@ pure EncVoteReq(d int, p int, v *voteReq) bool = EncReq(d, p, v.term, v.src) && gword(d, p+16) == v.lastLogIndex && gword(d, p+24) == v.lastLogTerm && (d[p+32] > 0) == v.transfer
 
-//@ func (*voteReq).encode
+//@ func (*voteReq).encode params(req, w)
 //@   requires w != nil
 //@   modifies wdata, wlen
 //@   ensures [C18.votereq-enc] result0 == nil ==> Wrote(w, 33) && EncVoteReq(wdata[ref(w)], old(wlen[ref(w)]), req)
 //@   ensures [C18.enc-frame] WroteSome(w)
 
-//@ func (*voteReq).decode
+//@ func (*voteReq).decode params(req, r)
 //@   requires r != nil
 //@   modifies rpos, all(req)
 //@   ensures [C18.votereq-dec] result0 == nil ==> Consumed(r, 33) && EncVoteReq(rdata[ref(r)], old(rpos[ref(r)]), req)
@@ -163,13 +163,13 @@ package raft
 
 //@ pure EncAppendReq(d int, p int, v *appendReq) bool = EncReq(d, p, v.term, v.src) && gword(d, p+16) == v.prevLogIndex && gword(d, p+24) == v.prevLogTerm && gword(d, p+32) == v.ldrCommitIndex && gword(d, p+40) == v.numEntries
 
-//@ func (*appendReq).encode
+//@ func (*appendReq).encode params(req, w)
 //@   requires w != nil
 //@   modifies wdata, wlen
 //@   ensures [C18.appendreq-enc] result0 == nil ==> Wrote(w, 48) && EncAppendReq(wdata[ref(w)], old(wlen[ref(w)]), req)
 //@   ensures [C18.enc-frame] WroteSome(w)
 
-//@ func (*appendReq).decode
+//@ func (*appendReq).decode params(req, r)
 //@   requires r != nil
 //@   modifies rpos, all(req)
 //@   ensures [C18.appendreq-dec] result0 == nil ==> Consumed(r, 48) && EncAppendReq(rdata[ref(r)], old(rpos[ref(r)]), req)
@@ -178,14 +178,14 @@ package raft
 
 //@ pure EncIdentityReq(d int, p int, v *identityReq) bool = EncReq(d, p, v.term, v.src) && gword(d, p+16) == v.cid && gword(d, p+24) == v.nid
 
-//@ func (*identityReq).encode
+//@ func (*identityReq).encode params(req, w)
 //@   requires w != nil
 //@   modifies wdata, wlen
 //@   ensures [C18.identityreq-enc] result0 == nil ==> Wrote(w, 32) && EncIdentityReq(wdata[ref(w)], old(wlen[ref(w)]), req)
 //@   ensures [C18.encode-error-propagates] result0 == nil ==> wlen[ref(w)] == old(wlen[ref(w)]) + 32
 //@   ensures [C18.enc-frame] WroteSome(w)
 
-//@ func (*identityReq).decode
+//@ func (*identityReq).decode params(req, r)
 //@   requires r != nil
 //@   modifies rpos, all(req)
 //@   ensures [C18.identityreq-dec] result0 == nil ==> Consumed(r, 32) && EncIdentityReq(rdata[ref(r)], old(rpos[ref(r)]), req)
@@ -195,26 +195,26 @@ package raft
 // ---- byte strings ------------------------------------------------------------------------
 // (length prefix is a uint32: values of 4 GiB and more are outside the encodable range)
 
-//@ func writeBytes
+//@ func writeBytes params(w, b)
 //@   requires w != nil
 //@   modifies wdata, wlen
 //@   ensures [C18.bytes-enc] result0 == nil && len(b) < 4294967296 ==> Wrote(w, 4 + len(b)) && gword32(wdata[ref(w)], old(wlen[ref(w)])) == len(b) && forall(j, old(wlen[ref(w)]) + 4 <= j && j < wlen[ref(w)] ==> wdata[ref(w)][j] == raw(b, base(b) + (j - old(wlen[ref(w)]) - 4)))
 //@   ensures [C18.enc-frame] WroteSome(w)
 
-//@ func readBytes
+//@ func readBytes params(r)
 //@   requires r != nil
 //@   modifies rpos
 //@   ensures [C18.bytes-dec] result1 == nil ==> len(result0) == gword32(rdata[ref(r)], old(rpos[ref(r)])) && Consumed(r, 4 + len(result0)) && forall(p, base(result0) <= p && p < base(result0) + len(result0) ==> raw(result0, p) == rdata[ref(r)][old(rpos[ref(r)]) + 4 + (p - base(result0))])
 //@   ensures [C18.truncated-is-error] (result1 == nil) == (4 <= old(Avail(r)) && 4 + gword32(rdata[ref(r)], old(rpos[ref(r)])) <= old(Avail(r)))
 //@   ensures [C18.dec-frame] ConsumedSome(r)
 
-//@ func writeString
+//@ func writeString params(w, s)
 //@   requires w != nil
 //@   modifies wdata, wlen
 //@   ensures [C18.string-enc] result0 == nil && len(s) < 4294967296 ==> Wrote(w, 4 + len(s)) && gword32(wdata[ref(w)], old(wlen[ref(w)])) == len(s) && forall(j, old(wlen[ref(w)]) + 4 <= j && j < wlen[ref(w)] ==> wdata[ref(w)][j] == strbyte(s, j - old(wlen[ref(w)]) - 4))
 //@   ensures [C18.enc-frame] WroteSome(w)
 
-//@ func readString
+//@ func readString params(r)
 //@   requires r != nil
 //@   modifies rpos
 //@   ensures [C18.string-dec] result1 == nil ==> len(result0) == gword32(rdata[ref(r)], old(rpos[ref(r)])) && Consumed(r, 4 + len(result0)) && forall(j, 0 <= j && j < len(result0) ==> strbyte(result0, j) == rdata[ref(r)][old(rpos[ref(r)]) + 4 + j])
@@ -225,13 +225,13 @@ package raft
 
 //@ pure EncEntryHdr(d int, p int, e *entry) bool = gword(d, p) == e.index && gword(d, p+8) == e.term && d[p+16] == e.typ && gword32(d, p+17) == len(e.data)
 
-//@ func (*entry).encode
+//@ func (*entry).encode params(e, w)
 //@   requires w != nil
 //@   modifies wdata, wlen
 //@   ensures [C18.entry-enc] result0 == nil && len(e.data) < 4294967296 ==> Wrote(w, 21 + len(e.data)) && EncEntryHdr(wdata[ref(w)], old(wlen[ref(w)]), e) && forall(j, old(wlen[ref(w)]) + 21 <= j && j < wlen[ref(w)] ==> wdata[ref(w)][j] == raw(e.data, base(e.data) + (j - old(wlen[ref(w)]) - 21)))
 //@   ensures [C18.enc-frame] WroteSome(w)
 
-//@ func (*entry).decode
+//@ func (*entry).decode params(e, r)
 //@   requires r != nil
 //@   modifies rpos, all(e)
 //@   ensures [C18.entry-dec] result0 == nil ==> EncEntryHdr(rdata[ref(r)], old(rpos[ref(r)]), e) && Consumed(r, 21 + len(e.data)) && forall(p, base(e.data) <= p && p < base(e.data) + len(e.data) ==> raw(e.data, p) == rdata[ref(r)][old(rpos[ref(r)]) + 21 + (p - base(e.data))])
@@ -239,7 +239,7 @@ package raft
 //@   ensures [C18.dec-frame] ConsumedSome(r)
 
 // installSnapReq: header (16) | lastIndex (8) | lastTerm (8) | the configuration entry | size (8)
-//@ func (*installSnapReq).decode
+//@ func (*installSnapReq).decode params(req, r)
 //@   requires r != nil
 //@   modifies rpos, all(req), entry.index, entry.term, entry.typ, entry.data, elems(uint8), contents(req.lastConfig.Nodes)
 //@   ensures [C18.installreq-dec] result0 == nil ==> EncReq(rdata[ref(r)], old(rpos[ref(r)]), req.term, req.src) && req.lastIndex == gword(rdata[ref(r)], old(rpos[ref(r)]) + 16) && req.lastTerm == gword(rdata[ref(r)], old(rpos[ref(r)]) + 24)
@@ -247,7 +247,7 @@ package raft
 //@   ensures [C18.truncated-is-error] result0 == nil ==> rpos[ref(r)] <= rend[ref(r)] || old(rpos[ref(r)]) > old(rend[ref(r)])
 //@   ensures [C18.dec-frame] ConsumedSome(r)
 
-//@ func (*installSnapReq).encode
+//@ func (*installSnapReq).encode params(req, w)
 //@   requires w != nil
 //@   modifies wdata, wlen
 //@   ensures [C18.installreq-enc] result0 == nil ==> EncReq(wdata[ref(w)], old(wlen[ref(w)]), req.term, req.src) && gword(wdata[ref(w)], old(wlen[ref(w)]) + 16) == req.lastIndex && gword(wdata[ref(w)], old(wlen[ref(w)]) + 24) == req.lastTerm
@@ -257,7 +257,7 @@ package raft
 
 //@ pure EncResp(d int, p int, v *resp) bool = gword(d, p) == v.term && d[p+8] == v.result
 
-//@ func (*resp).encode
+//@ func (*resp).encode params(resp, w)
 //@   requires w != nil
 //@   requires resp.result == unexpectedErr ==> resp.err != nil && (istype(resp.err, OpError) ==> as(resp.err, OpError).Err != nil)
 //@   modifies wdata, wlen
@@ -265,21 +265,21 @@ package raft
 //@   ensures [C18.resp-enc-err] result0 == nil && resp.result == unexpectedErr ==> wlen[ref(w)] >= old(wlen[ref(w)]) + 9 && EncResp(wdata[ref(w)], old(wlen[ref(w)]), resp)
 //@   ensures [C18.enc-frame] WroteSome(w)
 
-//@ func (*resp).decode
+//@ func (*resp).decode params(resp, r)
 //@   requires r != nil
 //@   modifies rpos, all(resp)
 //@   ensures [C18.resp-dec] result0 == nil ==> EncResp(rdata[ref(r)], old(rpos[ref(r)]), resp) && (resp.result != unexpectedErr ==> Consumed(r, 9) && resp.err == nil) && (resp.result == unexpectedErr ==> resp.err != nil)
 //@   ensures [C18.truncated-is-error] old(Avail(r)) < 9 ==> result0 != nil
 //@   ensures [C18.dec-frame] ConsumedSome(r)
 
-//@ func (*appendResp).encode
+//@ func (*appendResp).encode params(resp, w)
 //@   requires w != nil
 //@   requires resp.result == unexpectedErr ==> resp.err != nil && (istype(resp.err, OpError) ==> as(resp.err, OpError).Err != nil)
 //@   modifies wdata, wlen
 //@   ensures [C18.appendresp-enc] result0 == nil && resp.result != unexpectedErr ==> Wrote(w, 17) && EncResp(wdata[ref(w)], old(wlen[ref(w)]), resp) && gword(wdata[ref(w)], old(wlen[ref(w)]) + 9) == resp.lastLogIndex
 //@   ensures [C18.enc-frame] WroteSome(w)
 
-//@ func (*appendResp).decode
+//@ func (*appendResp).decode params(resp, r)
 //@   requires r != nil
 //@   modifies rpos, all(resp)
 //@   ensures [C18.appendresp-dec] result0 == nil && resp.result != unexpectedErr ==> Consumed(r, 17) && EncResp(rdata[ref(r)], old(rpos[ref(r)]), resp) && gword(rdata[ref(r)], old(rpos[ref(r)]) + 9) == resp.lastLogIndex
@@ -295,25 +295,25 @@ package raft
 // STUBS: structured payloads of task responses (their byte-level contracts are not written yet)
 // (STUB func (*Node).decode removed: verified contract in verif_contracts_codecs2.go; view at decodeTaskResp there)
 // (STUB func (*Info).decode removed: verified contract in verif_contracts_codecs2.go; view at decodeTaskResp there)
-//@ view (*entry).decode at decodeTaskResp
+//@ view (*entry).decode at decodeTaskResp params(e, r)
 //@   modifies rpos, all(e)
 //@   ensures ConsumedSome(r) && (result0 != nil ==> isexternal(result0))
-//@ view readString at decodeTaskResp
+//@ view readString at decodeTaskResp params(r)
 //@   modifies rpos
 //@   ensures ConsumedSome(r) && (result1 != nil ==> isexternal(result1))
-//@ view readBool at decodeTaskResp
+//@ view readBool at decodeTaskResp params(r)
 //@   modifies rpos
 //@   ensures ConsumedSome(r) && (result1 != nil ==> isexternal(result1))
-//@ view readUint64 at decodeTaskResp
+//@ view readUint64 at decodeTaskResp params(r)
 //@   modifies rpos
 //@   ensures ConsumedSome(r) && (result1 != nil ==> isexternal(result1))
-//@ view (*Config).decode at decodeTaskResp
+//@ view (*Config).decode at decodeTaskResp params(c, e)
 //@   modifies all(c)
 //@   ensures result0 != nil ==> isexternal(result0)
 
 // the kind of a remote error is preserved: a client can recognise not-leader, in-progress,
 // sentinel (plainError) and not-ready (temporaryError) errors after the wire
-//@ func decodeTaskResp
+//@ func decodeTaskResp params(typ, r)
 //@   requires r != nil
 //@   modifies rpos
 //@   ensures [C18.taskresp-not-leader] errType == "raft.NotLeaderError" && result1 != nil && !isexternal(result1) ==> istype(result1, NotLeaderError)
